@@ -564,7 +564,7 @@ class World:
         else:
             self.app.tick(budget)
 
-    def run(self, max_iters=3000, on_iter=None):
+    def run(self, max_iters=3000, on_iter=None, drain=True):
         """Execute the program under the real ``run()`` in the checking thread.  A harness component
         keeps the idle handler from blocking (reduce_time_left(0)), counts loop iterations, and
         calls stop() once the system has been quiescent (no queued events, no tasks) for two
@@ -607,7 +607,7 @@ class World:
             self.run_raised = e
         self.L('RUNRET')
         stopper.unregister()
-        while len(self.app):
+        while drain and len(self.app):      # (drain=False: whatever run() left in the queue stays there for the caller to look at)
             self.app.flush()
         return st['settled'] and not st['forced']
 
